@@ -25,13 +25,9 @@ from _delb.names import Namespaces
 REQ = ("From Coq Require Import List NArith.\nFrom Delb.Base Require Import PyStr.\n"
        "From Delb.XPath Require Import ParseEnc.\n")
 
-CLASS_IDS = {"unbalanced-closing-bracket": 1, "empty-location-step": 2, "function-call-as-step": 3,
-             "node-test-with-argument": 4, "operator-without-operand": 5, "empty-function-argument": 6,
-             "number-too-long": 7, "nesting-too-deep": 8, "attribute-as-axis": 9}
 XCLASS = ["IndexError", "KeyError", "AssertionError", "ValueError", "NotImplementedError"]
-# crash site -> class it must lie in (Classify.site_cls); other sites are meant to be unreachable
-SITE_CLS = {0: 1, 4: 2, 9: 3, 6: 4, 16: 5, 18: 6, 15: 7}
-NESTING_LIMIT = 200          # class 8: bracket nesting at least this deep (CPython's recursion limit; not modelled)
+NESTING_MODELLED = 200       # up to this bracket nesting the interpreter must not run out of stack (recursion limit 1000)
+NESTING_OVERFLOW = 3000      # from this nesting on it certainly does: the outcome must be the model's parse_under true
 
 # ------------------------------------------------------------------------------------------------
 # inputs
@@ -203,15 +199,6 @@ def enc_real(r):
     return [2, XCLASS.index(r[1]) if r[1] in XCLASS else 99]
 
 
-# ------------------------------------------------------------------------------------------------
-# classes, on the tokens of the implementation's own tokenizer (cross-checked against Classify.v)
-
-OPENERS, CLOSERS = ("OPEN_BRACKET", "OPEN_PARENS"), ("CLOSE_BRACKET", "CLOSE_PARENS")
-OPERATORS = {("NAME", "or"), ("NAME", "and"), ("OTHER_OPS", "="), ("OTHER_OPS", "!="), ("OTHER_OPS", "<="),
-             ("OTHER_OPS", "<"), ("OTHER_OPS", ">="), ("OTHER_OPS", ">")}
-NODE_TYPES = ("comment", "node", "processing-instruction", "text")
-
-
 def max_nesting(s):
     d = m = 0
     for c in s:
@@ -223,100 +210,15 @@ def max_nesting(s):
     return m
 
 
-def py_classes(s):
-    import sys as _sys
-    try:
-        toks = [(t.type.name, t.string) for t in rtokenize.__wrapped__(s)]
-    except Exception:  # noqa: BLE001
-        return []
-    out = []
-    depths, d = [], 0
-    for k, _ in toks:
-        depths.append(d)
-        if k in OPENERS:
-            d += 1
-        elif k in CLOSERS:
-            d = max(0, d - 1)
-    d = 0
-    for k, _ in toks:
-        if k in OPENERS:
-            d += 1
-        elif k in CLOSERS:
-            if d == 0:
-                out.append(1)
-                break
-            d -= 1
-    n = len(toks)
-    if any(depths[i] == 0 and toks[i][0] in ("SLASH", "SLASH_SLASH") and (i == n - 1 or toks[i + 1][0] == "PASEQ")
-           for i in range(n)):
-        out.append(2)
-    if any(depths[i] == 0 and toks[i][0] == "NAME" and toks[i + 1][0] == "OPEN_PARENS" and toks[i + 2][0] == "CLOSE_PARENS"
-           and toks[i][1] not in NODE_TYPES for i in range(n - 2)):
-        out.append(3)
-    if any(depths[i] == 0 and toks[i][0] == "NAME" and toks[i + 1][0] == "OPEN_PARENS" and toks[i + 2][0] != "CLOSE_PARENS"
-           and toks[i][1] != "processing-instruction" for i in range(n - 2)):
-        out.append(4)
-
-    def lb(t):
-        return t[0] in OPENERS or t[0] == "COMMA" or t in OPERATORS
-
-    def rb(t):
-        return t[0] in CLOSERS or t[0] == "COMMA" or t in OPERATORS
-    if any(depths[i] > 0 and toks[i] in OPERATORS and ((i == 0 or lb(toks[i - 1])) or (i == n - 1 or rb(toks[i + 1])))
-           for i in range(n)):
-        out.append(5)
-    if any(toks[i][0] == "COMMA" and toks[i + 1][0] == "CLOSE_PARENS" for i in range(n - 1)):
-        out.append(6)
-    if any(k == "NUMBER" and len(v) > _sys.get_int_max_str_digits() for k, v in toks):
-        out.append(7)
-    return out
-
-
-AXES = ("ancestor", "ancestor_or_self", "child", "descendant", "descendant_or_self", "following", "following_sibling",
-        "parent", "preceding", "preceding_sibling", "self")
-
-
-def attribute_as_axis(s):
-    """class 9 (implementation only; the model's AST equality is structural): some NAME :: whose NAME is not one
-    of the eleven axes (Axis(name) accepts every non-None attribute of an Axis object)"""
-    try:
-        toks = [(t.type.name, t.string) for t in rtokenize.__wrapped__(s)]
-    except Exception:  # noqa: BLE001
-        return False
-    return any(toks[i][0] == "NAME" and toks[i + 1][0] == "AXIS_SEPARATOR" and toks[i][1].replace("-", "_") not in AXES
-               for i in range(len(toks) - 1))
-
-
-def classify(finding, case):
-    cid = CLASS_IDS.get(finding["cls"])
-    if cid is None:
-        return False
-    s = case["expression"]
-    exc = case.get("exception")
-    want = finding.get("exception")
-    if want and exc and exc != want:
-        return False
-    if cid == 8:
-        return max_nesting(s) >= NESTING_LIMIT
-    if cid == 9:
-        return attribute_as_axis(s)
-    return cid in py_classes(s)
+# the nine defects this check found on the original tree, all repaired since (findings.d/C16.json, status fixed):
+# kept as regression inputs; each must now be an XPathParsingError (or, for the axis names, a rejected axis)
+REGRESSION = ["a/", "/", "//", "self::node()[1]/", "a/|b", "last()", "foo()", "a]", "a)", "a[1 or]", "a[=]", "a[or]",
+              "foo(1)", "comment(1)", "a[f(,)]", "a[concat('a',)]", "__dict__::a", "__slots__::a", "__module__::a",
+              "evaluate::a", "__class__::a", "ancestor_or_self::a", "ancestor_or-self::a"]
 
 
 def replay_open(f):
-    s = f["witness"]["expression"]
-    if f["cls"] == "nesting-too-deep":
-        s = "a[" + "(" * 3000 + "1" + ")" * 3000 + "]"
-    if f["cls"] == "number-too-long":
-        s = "a[" + "1" * (sys.get_int_max_str_digits() + 1) + "]"
-    if f["cls"] == "attribute-as-axis":
-        try:
-            rparse.__wrapped__(s) == rparse.__wrapped__(s)
-            return False
-        except AttributeError:
-            return True
-    r = real_outcome(s)
-    return r[0] == "crash" and r[1] == f.get("exception", r[1])
+    return False             # no open finding
 
 
 # ------------------------------------------------------------------------------------------------
@@ -340,17 +242,12 @@ def show(enc):
     return enc[:80]
 
 
-def split_case(vals):
-    n = vals[0]
-    return vals[1:1 + n], vals[1 + n:]
-
-
 def check_cases(ctx, cases):
     """cases: [(family, expression)]"""
     reals = []
     for fam, s in cases:
         reals.append(real_outcome(s))
-    terms = ["parse_case %s" % cstr(s) for _, s in cases]
+    terms = [("parse_overflow_enc %s" if fam == "overflow" else "parse_enc %s") % cstr(s) for fam, s in cases]
     vals = ctx.coq_eval("c16", REQ, terms, chunk=250)
     if any(v is None for v in vals):
         # a concurrent rebuild of a shared library makes coqc refuse stale .vo files: rebuild once and retry
@@ -359,40 +256,32 @@ def check_cases(ctx, cases):
         again = ctx.coq_eval("c16r", REQ, [terms[i] for i in retry], chunk=250)
         for i, v in zip(retry, again):
             vals[i] = v
-    for (fam, s), r, v in zip(cases, reals, vals):
+    for (fam, s), r, model in zip(cases, reals, vals):
         ctx.count(1, fam + "/" + (r[0] if r[0] != "crash" else "crash:" + r[1]))
-        case = {"expression": s, "family": fam}
+        case = {"expression": s if len(s) < 200 else s[:80] + "...(%d characters)" % len(s), "family": fam}
         if r[0] != "ok" or (len(r[1]) > 12):
             ctx.nontrivial_case(s)
-        if v is None:
+        if model is None:
             ctx.mismatch("model evaluation", {"case": case, "detail": "coqc failed on the case file"})
-        else:
-            classes, model = split_case(v)
-            if model[:1] == [3]:
-                ctx.mismatch("model ran out of fuel (C16_no_other_outcome says it cannot)", case)
-            elif model[0] == 2:
-                site, xc = model[1], model[2]
-                if r[0] != "crash" or r[1] != XCLASS[xc]:
-                    ctx.mismatch("parse model vs _delb.xpath.parse", {"case": case, "impl": [str(x)[:200] for x in r[:5]],
-                                                                      "model": show(model)})
-                if SITE_CLS.get(site) not in classes:
-                    ctx.mismatch("crash site outside its class (Classify.v)", {"case": case, "site": site, "classes": classes})
-            elif model != enc_real(r):
-                ctx.mismatch("parse model vs _delb.xpath.parse", {"case": case, "impl": show(enc_real(r)), "model": show(model)})
-            if sorted(classes) != sorted(py_classes(s)):
-                ctx.mismatch("Classify.classes_of vs harness py_classes", {"case": case, "coq": classes, "py": py_classes(s)})
-        judge(ctx, case, r)
+        elif model[:1] == [3]:
+            ctx.mismatch("model ran out of fuel (C16_total says it cannot)", case)
+        elif model[0] == 2:
+            ctx.mismatch("the model leaves through a crash site (C16_total says it cannot)",
+                         {"case": case, "impl": [str(x)[:200] for x in r[:5]], "model": show(model)})
+        elif model != enc_real(r):
+            ctx.mismatch("parse model vs _delb.xpath.parse", {"case": case, "impl": show(enc_real(r)), "model": show(model)})
+        judge(ctx, dict(case, expression=s), r)
         if r[0] == "xpe":
-            ctx.sample({"expression": s, "position": r[1], "str": r[4]})
+            ctx.sample({"expression": case["expression"], "position": r[1], "str": r[4]})
 
 
 def judge(ctx, case, r):
     """the property itself, on the implementation"""
     if r[0] == "crash":
         ctx.fail("parse(%r) raises %s instead of XPathParsingError" % (case["expression"][:80], r[1]),
-                 dict(case, exception=r[1]), classify)
+                 dict(case, exception=r[1]))
     elif r[0] == "xpe" and r[5]:
-        ctx.fail("XPathParsingError of parse(%r): %s" % (case["expression"][:80], "; ".join(r[5])), case, classify)
+        ctx.fail("XPathParsingError of parse(%r): %s" % (case["expression"][:80], "; ".join(r[5])), case)
 
 
 # ------------------------------------------------------------------------------------------------
@@ -408,7 +297,7 @@ def eval_result(ast, root):
 def cache_half(ctx, n_histories, hist_len):
     docs = [impl.Document('<r xmlns:p="urn:p" k="v"><a k="v" j="1">x<b/>y</a><p:a/><a><c k="w"/></a><!--c--><?t d?></r>'),
             impl.Document("<a><a><a/></a>text<b k='1'/></a>")]
-    pool = VALID + [s for s in FIXED if len(s) < 30]
+    pool = VALID + [s for s in FIXED + REGRESSION if len(s) < 30]
     for _ in range(n_histories):
         rparse.cache_clear()
         rtokenize.cache_clear()
@@ -466,10 +355,10 @@ def cache_half(ctx, n_histories, hist_len):
             if c_ast is not None and f_ast is not None:
                 try:
                     if not (c_ast == f_ast):
-                        ctx.fail("cached AST != fresh AST (==)", case, classify)
+                        ctx.fail("cached AST != fresh AST (==)", case)
                 except Exception as e:  # noqa: BLE001
                     ctx.fail("comparing the cached with the fresh AST raises %s" % type(e).__name__,
-                             dict(case, exception=type(e).__name__), classify)
+                             dict(case, exception=type(e).__name__))
                 for d in docs:
                     for node in (d.root, d.root[0]):
                         a, b = eval_result(c_ast, node), eval_result(f_ast, node)
@@ -490,13 +379,13 @@ def direct_search(ctx, n):
         ctx.count(1, "search/" + (r[0] if r[0] != "crash" else "crash:" + r[1]))
         judge(ctx, {"expression": s, "family": fam}, r)
     # resource classes (not modelled): deep nesting, long digit strings
-    for depth in (50, NESTING_LIMIT - 1):
+    for depth in (50, NESTING_MODELLED - 1, NESTING_OVERFLOW):
         for s in ("a[" + "(" * depth + "1" + ")" * depth + "]", "a" + "[b" * (depth // 2) + "]" * (depth // 2),
                   "a[" + "not(" * (depth // 2) + "1" + ")" * (depth // 2) + "]"):
             r = real_outcome(s)
             ctx.count(1, "search/nesting/" + r[0])
             judge(ctx, {"expression": s, "family": "nesting"}, r)
-    for s in ("a[" + "7" * sys.get_int_max_str_digits() + "]",):
+    for s in ("a[" + "7" * sys.get_int_max_str_digits() + "]", "a[" + "7" * (sys.get_int_max_str_digits() + 1) + "]"):
         r = real_outcome(s)
         ctx.count(1, "search/long-number/" + r[0])
         judge(ctx, {"expression": s, "family": "numbers"}, r)
@@ -516,12 +405,19 @@ def run(ctx, args):
             check_cases(ctx, [(case.get("family", "replay"), case["expression"])])
         return ctx.finish("replay of " + args.replay, replay_open=replay_open)
     quick = ctx.tier == "quick"
-    cases = [("fixed", s) for s in FIXED + VALID]
+    cases = [("fixed", s) for s in FIXED + VALID] + [("regression", s) for s in REGRESSION if s not in FIXED]
+    # resource limits: a number literal one digit beyond / at int's limit; nesting far beyond the recursion limit
+    lim = sys.get_int_max_str_digits()
+    cases += [("long-number", "a[" + "1" * (lim + 1) + "]"), ("long-number", "a[@k=" + "٣" * (lim + 1) + "]"),
+              ("long-number", "a[" + "1" * lim + "]")]
+    cases += [("overflow", "a[" + "(" * NESTING_OVERFLOW + "1" + ")" * NESTING_OVERFLOW + "]"),
+              ("overflow", "a" + "[b" * NESTING_OVERFLOW + "]" * NESTING_OVERFLOW)]
+    cases += [("nesting", "a[" + "(" * d + "1" + ")" * d + "]") for d in (10, 60)]
     seen = set(s for _, s in cases)
     n = 2500 if quick else 40000
     while len(cases) < n:
         fam, s = gen_case(ctx.rng)
-        if s in seen or len(s) > 60:
+        if s in seen or len(s) > 60 or max_nesting(s) >= NESTING_MODELLED:
             continue
         seen.add(s)
         cases.append((fam, s))
